@@ -157,3 +157,4 @@ Lemma K_sh_psi_to_dec_and_ra : sh_psi_to_dec_and_ra = true. Proof. reflexivity. 
 Lemma K_sh_tdm_field_func_psi : sh_tdm_field_func_psi = true. Proof. reflexivity. Qed.
 Lemma K_sh_get_tdm_field_func_psi : sh_get_tdm_field_func_psi = true. Proof. reflexivity. Qed.
 Lemma K_sh_signalpdf_calculate_pd : sh_signalpdf_calculate_pd = true. Proof. reflexivity. Qed.
+Lemma K_sh_post_sampling_processing : sh_post_sampling_processing = true. Proof. reflexivity. Qed.
